@@ -471,6 +471,29 @@ def long_family(ctx):
                      "high_level_records": {"n": n2, "levels": [26000, 100000], "windows": [1, 2, 5, 36]}})
 
 
+def attr_histories(ctx):
+    """rolling.sum / mean_grp on one long-lived object whose nodata attribute is edited in place between calls."""
+    import pandas as pd
+    import xarray as xr
+    from .. import histories
+    sub = "attr_histories"
+    n = 5
+    time = pd.date_range("2000-01-01", periods=n, freq="10D")
+    rows = [[3, 1, 4, 1, 5], [0, 7, 0, 7, 2], [-9999, 2, 7, -9999, 30], [7, 7, 2, 9, 7], [-9999] * n, [0, 0, 7, 7, 0]]
+    for dtype in ("int16", "float32"):
+        data = np.array(rows).astype(dtype).reshape(2, 3, n)
+
+        def make():
+            return xr.DataArray(data.copy(), dims=("y", "x", "time"), coords={"time": time})
+
+        same = lambda a, b: np.array_equal(a, b, equal_nan=True)
+        h = histories.explore(make, "nodata", [histories.ABSENT, -9999, 0, 7], lambda da: da.hdc.rolling.sum(2).values.copy(), same, 3, ctx, sub, f"rolling.sum(2)[{dtype}]")
+        h += histories.explore(make, "nodata", [histories.ABSENT, -9999, 0, 7], lambda da: da.hdc.algo.mean_grp([0, 1, 0, 1, 0]).values.copy(), same, 3, ctx, sub,
+                               f"mean_grp[{dtype}]")
+        ctx.note_add("attr_histories", h)
+    ctx.sample(sub, {"attr": "nodata", "values": ["<absent>", -9999, 0, 7], "depth": 3, "pixels": rows})
+
+
 # --------------------------------------------------------------------- entry points
 def run(ctx):
     letters = letters_for(ctx.seed)
@@ -503,10 +526,14 @@ def run(ctx):
     long_family(ctx)
     falsy_nodata(ctx)
     big_sentinels(ctx)
+    attr_histories(ctx)
 
 
 def replay(sub, case, p):
     kind = case["kind"]
+    if kind == "attr_history":
+        attr_histories(p)
+        return
     if kind == "mg_float":
         _mean_grp_task((case["n"], [3, 10], [-9999, 255, 4], ["float32"], 3), p)
         return
